@@ -23,7 +23,9 @@ def run_one(s):
     N, ck, kill = cfg["N"], cfg["ckint"], cfg["kill"]
     base = os.environ.get("VERIF_TMP") or None
     wd = tempfile.mkdtemp(prefix="c19-", dir=base)
-    tr = {"exc": "", "files": {}, "files2": {}}
+    tr = {"exc": "", "files": {}, "files2": {}, "filesr": {}}
+    # every second scenario: ONE OptimizerSetting object for the Solvers of all three runs (as a script does that defines it once)
+    setting = c07.mk_setting(cfg) if s["tid"] % 2 == 1 else None
     # callback / file names: plain, or (every third scenario) with a dot in it, as in "run_lr0.01"
     wname = "w_lr0.5" if s["tid"] % 3 == 0 else "w"
     sname = "state_v1.2" if s["tid"] % 3 == 0 else "state"
@@ -34,7 +36,7 @@ def run_one(s):
             def cb(objs):
                 keep["cb"] = tp.utils.WeightSaveCallback(objs["model"], wd, wname, check_interval=ck, save_initial_model=True, save_final_model=True)
                 return [keep["cb"]]
-            log, objs, trainer, solver = c07.fit(cfg, N, wd, callbacks_extra=cb)
+            log, objs, trainer, solver = c07.fit(cfg, N, wd, callbacks_extra=cb, setting=setting)
             snap = c07.snapshot(objs, trainer)
             first_final = {nm: (load_ab(os.path.join(wd, "%s_%s.pt" % (wname, nm)), cfg) if os.path.exists(os.path.join(wd, "%s_%s.pt" % (wname, nm))) else [])
                            for nm in ("init", "min_loss", "final")}
@@ -64,7 +66,7 @@ def run_one(s):
 
         def run1():
             cb = lambda objs: [tp.utils.TrainerStateCheckpoint(wd, sname, check_interval=ck)]
-            c07.fit(cfg, kill, wd, callbacks_extra=cb)
+            c07.fit(cfg, kill, wd, callbacks_extra=cb, setting=setting)
             return os.path.exists(os.path.join(wd, sname + ".ckpt"))
         r = watched(run1, 90)
         if r[0] != "ok" or not r[1]:
@@ -73,7 +75,9 @@ def run_one(s):
         # the crash: nothing of run 1 survives except the file
 
         def run2():
-            log, objs, trainer, _ = c07.fit(cfg, N, wd, ckpt_path=os.path.join(wd, sname + ".ckpt"))
+            # the resumed run carries a weight-saving callback of its own (files r_*): its minimum-loss file holds a checked step
+            cbr = lambda objs: [tp.utils.WeightSaveCallback(objs["model"], wd, "r", check_interval=ck, save_initial_model=False, save_final_model=True)]
+            log, objs, trainer, _ = c07.fit(cfg, N, wd, ckpt_path=os.path.join(wd, sname + ".ckpt"), setting=setting, callbacks_extra=cbr)
             return c07.snapshot(objs, trainer), int(trainer.global_step), log
         r = watched(run2, 90)
         if r[0] != "ok":
@@ -82,6 +86,9 @@ def run_one(s):
             return tr
         tr["run2"], tr["steps2"] = r[1][0], r[1][1]
         tr["log2"] = [e for e in r[1][2] if e["e"] == "step"]
+        for nm in ("min_loss", "final"):
+            p = os.path.join(wd, "r_%s.pt" % nm)
+            tr["filesr"][nm] = load_ab(p, cfg) if os.path.exists(p) else []
         return tr
     finally:
         shutil.rmtree(wd, ignore_errors=True)
